@@ -93,7 +93,11 @@ def build(sdir, variant="plain", config="A", targets=None, extra_cflags=""):
 def compile_harness(sdir, b, sources, out, extra=None, cxx=None, libs=None):
     """Compile + link a C++ harness against the static library of build b."""
     cmd = [cxx or b["cxx"], "-std=gnu++17"] + b["cflags"].split() + ["-I" + i for i in b["incs"]]
-    cmd += ["-I" + os.path.join(VERIF, "harness")] + (extra or []) + sources + [b["lib"]] + (libs or []) + ["-lm", "-o", out]
+    extra = list(extra or [])
+    if any(os.path.basename(s) == "xrlcall.cpp" for s in sources):
+        # every close() issued from the library's objects goes through the interpreter's wrapper: closing a descriptor that is not open stops the run
+        extra += ["-DXRLCALL_WRAP_CLOSE", "-Wl,--wrap=close"]
+    cmd += ["-I" + os.path.join(VERIF, "harness")] + extra + sources + [b["lib"]] + (libs or []) + ["-lm", "-o", out]
     rc, o = run(cmd, log=os.path.join(sdir, "harness.log"))
     if rc != 0:
         raise BuildError("harness compile failed: %s\n%s" % (" ".join(cmd), o[-6000:]))
